@@ -1536,7 +1536,9 @@ class Interp(object):
   def call_closure(self, c, args, kws, st, ctx, k, node=None, merge=True):
     """interpret the body of c with the given actual arguments"""
     if ctx is not None and ctx.depth > self.call_depth_limit:
-      raise Unsupported("call depth limit at %s" % c.qualname)
+      # unbounded recursion in the interpreted program surfaces as RecursionError, as in CPython
+      # (_ofp_meta.__len__ relies on it: its bare `except:` catches the error of cls.__len__ recursing)
+      return self.raise_exc(st, ctx, RecursionError, "maximum recursion depth exceeded", node)
     fnode = c.node
     a = fnode.args
     fid = new_oid()
